@@ -100,7 +100,7 @@ def matrix_weights(chk, rule, site, loc, W, A, names):
     chk.check(okc, rule, f'{site}: u is clipped to [1, n − 1], so both u − 1 and u are valid node indices for every query (also exactly at and beyond the last node)', sym.show(ur, maxdepth=3)[:160], loc,
               'clip(searchsorted(…), 1, len(xp) - 1)', sym.show(ur, maxdepth=3)[:160])
     ss = ur.a[1][0] if okc else ur
-    oks = match.is_ext_call(ss, 'searchsorted') and list(ss.a[1][:2]) == [S('xp'), S('x')] and dict(ss.a[2]).get('side') == sym.const('right')
+    oks = match.is_ext_call(ss, 'searchsorted') and list(ss.a[1][:2]) == [S('xp'), S('x')] and util.call_kwargs(ss).get('side') == sym.const('right')
     chk.check(oks, rule, f"{site}: u = searchsorted(xp, x, side='right') (a query on a node belongs to the cell to its right)", sym.show(ss, maxdepth=3)[:140], loc, "searchsorted(xp, x, side='right')", sym.show(ss, maxdepth=3)[:140])
 
 
@@ -270,7 +270,7 @@ def rule_extension(chk, prog):
   site, loc = f'{VI}._linear_interp_with_safe_extrap', (f.file, f.lineno)
   ok = match.is_ext_call(v, 'interp') and len(v.a[1]) == 3 and v.a[1][0] == S('x')
   if chk.check(ok, rule, f'{site}: jnp.interp(x, extended xp, extended fp, …)', sym.show(v, maxdepth=3)[:160], loc):
-    kw = dict(v.a[2])
+    kw = util.call_kwargs(v)
     chk.check(is_nan(kw.get('left')) and is_nan(kw.get('right')), rule, f'{site}: values beyond the extended range are missing on both sides (left=nan, right=nan)', f'left={sym.show(kw["left"]) if "left" in kw else None}, right={sym.show(kw["right"]) if "right" in kw else None}', loc,
               'left=nan, right=nan', str({k: sym.show(x) for k, x in kw.items()}))
     lx, lf = v.a[1][1], v.a[1][2]
@@ -304,7 +304,7 @@ def term_modes(prog, v, depth=0):
     if t.k != 'call':
       continue
     if match.is_ext_call(t, 'interp'):
-      kw = dict(t.a[2])
+      kw = util.call_kwargs(t)
       found = True
       if not kw:
         out.add('constant')
@@ -444,10 +444,10 @@ def rule_coordinates(chk, prog):
   t = v
   while t.k == 'call' and t.a[0].k == 'ext' and t.a[0].a[0] in ('jax.vmap', 'jax.numpy.vectorize'):
     if t.a[0].a[0] == 'jax.vmap':
-      ia = t.a[1][1] if len(t.a[1]) > 1 else dict(t.a[2]).get('in_axes')
+      ia = t.a[1][1] if len(t.a[1]) > 1 else util.call_kwargs(t).get('in_axes')
       axes.append(tuple(x.a[0] if x.k == 'const' else sym.show(x) for x in ia.a) if ia is not None and ia.k == 'tuple' else None)
     else:
-      sig_ = dict(t.a[2]).get('signature')
+      sig_ = util.call_kwargs(t).get('signature')
       axes.append(('sig', sig_.a[0] if sig_ is not None and sig_.k == 'const' else None))
     t = t.a[1][0]
   chk.check(t == S('interpolate_fn'), rule, f'{site}: wraps the given function', sym.show(t), loc)
@@ -499,7 +499,7 @@ def rule_horizontal(chk, prog):
   if chk.check(ok, rule, f'{site}: builds a tree and queries it', sym.show(v, maxdepth=3)[:160], loc):
     ti, qi = tree[0].a[1][0], qry[0].a[1][0]
     deps = lambda t: {x.a[0] for x in sym.walk(t) if x.k == 'sym'}
-    chk.check(deps(ti) == {'source_grid'} and deps(qi) == {'target_grid'} and dict(tree[0].a[2]).get('metric') == sym.const('haversine'), rule,
+    chk.check(deps(ti) == {'source_grid'} and deps(qi) == {'target_grid'} and util.call_kwargs(tree[0]).get('metric') == sym.const('haversine'), rule,
               f'{site}: the tree indexes the source points, the query uses the target points, distance is great-circle (haversine)', f'tree ← {sorted(deps(ti))}, query ← {sorted(deps(qi))}', loc)
     def order(t):
       parts = t.a[1][0].a if t.k == 'call' and t.a[1] and t.a[1][0].k in ('list', 'tuple') else []
